@@ -655,6 +655,7 @@ func (f *Frame) closeLoop(h *ssa.BasicBlock, cond string) {
 	if env.pre == nil {
 		env.pre = f.headerSt[h]
 	}
+	env.prev = f.headerSt[h]
 	// asserts: intermediate facts (typically instances of axioms) proved here and then available below
 	for i, as := range ls.Asserts {
 		g := env.evalBool(as.Expr)
